@@ -1,6 +1,6 @@
 (* Proofs/C15.v *)
 From Coq Require Import List Arith NArith Lia Bool.
-From EZK Require Import Model.C15.
+From EZK Require Import Gen.Tables Model.C15.
 Import ListNotations.
 Open Scope N_scope.
 
@@ -227,4 +227,13 @@ Proof.
   destruct (revive_delivers s1 _ r HI1 Ht1 Hf1) as (s2 & H2 & Hd2 & _ & He2 & _).
   assert (HI2 : Inv s2) by (eapply task_step_inv; eauto).
   exists s1, s2. repeat split; auto; [congruence|apply HI2].
+Qed.
+
+(* a message that is readable when the task of an unreferenced connection is polled is handed over, whatever the idle timer says *)
+Lemma frame_beats_idle_timer s d r :
+  stream_frame_before_idle_timer = true -> panicked s = false -> tsk s = TUnused d false -> ent s = EUnused -> inbox s = true :: r ->
+  exists s', task_step s = Some s' /\ delivered s' = S (delivered s) /\ ent s' = EUsed /\ inbox s' = r.
+Proof.
+  intros G Hp Ht He Hi. unfold task_step. rewrite Hp, Ht, G. unfold item_ready. rewrite Hi. cbn [andb].
+  unfold handle_item. rewrite He, Hi. eexists. split; [reflexivity|]. cbn. auto.
 Qed.
